@@ -60,6 +60,16 @@ CHECKS.update({
         "state reported under the lock must equal the model's, no thread may block, and every thread's result must equal the sequential one. Plus 150/3000 OS-scheduled runs whose lock-ordered events TLC validates (monotone cache, use sees enough).",
    ref="DESIGN.md 4/C17", note="Trusted: TLC, the two cache specs, harness/src/sched.rs. Lock phases are modelled as atomic (hooks yield only where no lock is held); races inside unsafe blocks and Arc::as_ptr().cast_mut() during context construction are below this granularity."),
 })
+CHECKS.update({
+ "C09": dict(cat="model_checking", tech="trace validation (impl->spec): recorded roots and transform outputs of the real NTT tables checked by TLC against the evaluation-map definition in spec/Ntt.tla (native integers for q < 2^14, BigNat power-chain certificates up to 61 bits)",
+   text="For every NTT-friendly prime below 2^14 (4/12 per degree 2..32/64): minimal root, all N unit vectors + dense + extreme vectors forward and inverse against NTT(a)[i] = a(psi^(2 brev(i)+1)), "
+        "lazy forms on their range maxima and multiples of q (outputs < 4q resp. < 2q, congruent), convolution through dyadic products, negacyclic shifts, and agreement of independently constructed tables; "
+        "for 20..61-bit moduli and N up to 256 (quick) / 4096 (thorough) the images of c*X^j are checked through certified power chains.", ref="DESIGN.md 4/C09", note=ARITH_NOTE),
+ "C16": dict(cat="model_checking", tech="TLC explores spec/BlakeRng.tla (stream position under fill_bytes/next_u32/next_u64 with alignment); every (position, call) transition replayed on the real BlakeRNG against an independent BLAKE3-XOF reference; histories/samples validated by TLC (spec/Trace_Rng.tla)",
+   text="All (position <= 8300 quick / 12400 thorough, call) pairs incl. reads straddling one to three buffer refills, for 8 seeds, byte-exact against the documented stream; histories of 60/400 mixed encryptions and key generations: "
+        "all masks and stored seeds pairwise distinct, equal explicit generator states give equal masks and leave the generator in the same state; 32-byte windows of 64 KiB / 1 MiB distinct; ternary/error/uniform samples for 1..6 primes well-formed.",
+   ref="DESIGN.md 4/C16", note="Trusted: TLC, spec/BlakeRng.tla, the blake3 crate used for the reference stream, 96-bit digests for comparing masks. Distribution checks are sanity bounds only."),
+})
 NA_REASON = "check not built yet in this round (work in progress; see DESIGN.md section 8)"
 EXTRA = os.path.join(ROOT, "lib", "manifest_extra.json")
 
